@@ -112,8 +112,35 @@ def _nest(t):
     return nodes[-1]
 
 
+def _has_noncanonical_guard_ext(t):
+    """does the program contain (softfork A1 (q . X) ...) with X a non-canonical non-negative integer?"""
+    stack = [t]
+    while stack:
+        x = stack.pop()
+        if "a" in x:
+            continue
+        items = []
+        y = x
+        while "f" in y:
+            items.append(y["f"])
+            y = y["r"]
+        if len(items) >= 3 and items[0].get("a") == [36]:
+            ext = items[2]
+            if "f" in ext and ext["f"].get("a") == [1] and "a" in ext["r"]:
+                b = ext["r"]["a"]
+                if b and b[0] == 0 and (len(b) == 1 or b[1] < 0x80):
+                    return True
+        stack.append(x["f"])
+        stack.append(x["r"])
+    return False
+
+
 def _sig(prop, m):
     inp = m.get("input") or {}
+    if prop == "C07" and m["kind"] == "rel:ok_implies_ok_same" and inp.get("prog") is not None:
+        fl = set(inp.get("flags") or [])
+        if "CANONICAL_INTS" in fl and "NO_UNKNOWN_OPS" not in fl and _has_noncanonical_guard_ext(_nest(inp["prog"])):
+            return "C07:F9:canonical-ints-without-no-unknown-ops-makes-guard-with-noncanonical-extension-a-noop"
     return "%s:%s:%s" % (prop, m["kind"], C.sha256_str(json.dumps(inp, sort_keys=True))[:12])
 
 
